@@ -10,8 +10,8 @@ import Apko.Model.Version
 namespace Apko.TransVersion
 open Apko
 
-/-- the counted loop of `includesVersion` (`for i := 0; i < len(required.numbers); i++`), as the translator
-renders it, is the prefix test of the model — when `actual` is at least as long (the guard before the loop) -/
+-- the counted loop of `includesVersion` (`for i := 0; i < len(required.numbers); i++`), as the translator
+-- renders it, is the prefix test of the model — when `actual` is at least as long (the guard before the loop)
 theorem rangeLoop_eq_numsPrefix (r a : List Nat) (h : r.length ≤ a.length) :
     (List.range r.length).findSome? (fun i =>
         if (a.getD i default != r.getD i default) then some false else none)
@@ -33,7 +33,7 @@ theorem rangeLoop_eq_numsPrefix (r a : List Nat) (h : r.length ≤ a.length) :
       · have : (x == y) = false := beq_eq_false_iff_ne.mpr (fun h => hxy h.symm)
         simp [hxy, this]
 
-/-- T `trans_includesVersion`: Go's `includesVersion`, translated, is the model's `includesVersion`. -/
+-- T `trans_includesVersion`: Go's `includesVersion`, translated, is the model's `includesVersion`.
 theorem trans_includesVersion (actual required : Version) :
     Generated.Trans.includesVersion actual required = includesVersion actual required := by
   unfold Generated.Trans.includesVersion includesVersion
@@ -43,7 +43,7 @@ theorem trans_includesVersion (actual required : Version) :
     simp only [hlen, decide_false, Bool.false_eq_true, ↓reduceIte, rangeLoop_eq_numsPrefix _ _ hle]
     cases hp : numsPrefix required.numbers actual.numbers <;> simp <;> grind
 
-/-- T `trans_satisfies`: Go's `versionDependency.satisfies`, translated, is `Dep.satisfies`. -/
+-- T `trans_satisfies`: Go's `versionDependency.satisfies`, translated, is `Dep.satisfies`.
 theorem trans_satisfies (v : Dep) (actual required : Version) :
     Generated.Trans.satisfies v actual required = v.satisfies actual required := by
   unfold Generated.Trans.satisfies
